@@ -63,6 +63,12 @@ CHECKS = {
    text='For ldx/st/stx/xadd/ldabs/ldind x 4 widths x offset classes: on every CLIF path, each load/store/atomic_rmw lies wholly inside the stack slot, packet or metadata buffer (no wrap), and a bounds-check trap fires only if the access it guards is not wholly inside a region; '
         'base register, region bases and lengths (incl. empty/absent) are symbolic.',
    note='Trusted: Cranelift lowering of trapz and of the accesses; CLIF semantics table; z3. Distinct buffers do not overlap.'),
+ 'C12': dict(level='model_checking', engine='mirsym', design_ref='DESIGN.md 5/C12',
+   technique='symbolic execution of the MIR of JitCompiler::jit_compile (prologue, one loop iteration per accepted opcode from an arbitrary compiler state, epilogue) and of JitMemory::new, under the acceptance formula extracted from the real verifier + z3; bounded native compilation families for Cranelift and for whole compilations',
+   text='x86-64 JIT, for each of the 122 accepted opcodes and all field values, code offsets and both passes: no panic path in the loop body (register map index, pc_locs index, arithmetic overflow, unreachable arms); at most 64 bytes per instruction; recorded jump fix-ups lie inside the emitted bytes; '
+        'the sizing pass and the emitting pass emit the same number of bytes (prologue, each instruction, epilogue), every buffer-capacity assert of an emitting path follows from room for the bytes it emits, and JitMemory::new hands the emitting pass the same program/flags/helpers and a buffer >= the counted size. '
+        'Native complement: about 1,700 (thorough 9,000) accepted programs (every opcode x boundary fields, control-flow shapes, sizes around 2^16 and up to 10^6) compiled by both compilers in a child process: Ok/Err only, repeatable.',
+   note='Induction over instructions of the emitting pass (room = bytes still to be emitted) is a paper step on top of the discharged per-step obligations. resolve_jumps and Cranelift are covered by the native families only (Cranelift internals are out of reach for the solver). Allocation failure is outside the claim. Trusted: rustc MIR, z3.'),
  'C07': dict(level='model_checking', engine='mirsym+x86sym', design_ref='DESIGN.md 5/C07',
    technique='symbolic execution of the MIR of the interpreter CALL/EXIT arms from an arbitrary frame state + z3 (call/exit semantics, frame lemma for every opcode, pairing lemma); whole-program translation validation of the JIT on a local-call family',
    text='Interpreter: for call (src=1) and exit from an arbitrary state (depth 0..8, any displacement, any Option<u16> frame size per function entry) z3 shows saved r6-r9/return address, r10 lowered by the frame size, r0-r9 untouched, target pc+1+imm without overflow, '
